@@ -63,7 +63,7 @@ def h_dt_data(f, N, mode, period=None, txt=None):
         res = []
         w = dt.trace(env, vs, N, ext=False)
         if mode == 'offline':
-            s = dt.make_spec('offline~', 'out = ' + (txt or text(f)), vs, period=period)
+            s = dt.make_spec('offline~', 'out = ' + (txt or text(f)), vs, period=period, f=f)
             data = {'time': list(range(N))}
             for v in vs:
                 data[v] = list(w[v])
@@ -79,7 +79,7 @@ def h_dt_data(f, N, mode, period=None, txt=None):
             res += dt.eq_list(A, 'repeat3', [p[1] for p in r3], r1v)
             res += dt.eq_list(A, 'repeat-rho', r1v, refsem.rho(A, f, w, N))
         else:
-            s = dt.make_spec('online~', 'out = ' + text(f), vs)
+            s = dt.make_spec('online~', 'out = ' + text(f), vs, f=f)
             outs = []
             for i in range(N):
                 data = [[v, w[v][i]] for v in vs]
@@ -267,6 +267,11 @@ def obligations(tier, rng):
                            (('eventually_t', X, 0, 2), 'eventually[0,2000ms](x)', None), (('since_t', X, Y, 1, 2), '(x) since[1s,2000ms] (y)', None),
                            (('until_t', X, Y, 0, 2), '(x) until[0,1](y)', (500, 'ms', 0.1)), (('historically_t', X, 1, 3), 'historically[1000ms,3s](x)', None)]:
         out.append(ob('C11', 'dt_data', 'repeat-units/%s/p=%s' % (txt, period), f=f, N=5, mode='offline', txt=txt, period=list(period) if period else None))
+    from .. import pool
+    for g in pool.ALL:
+        out.append(ob('C11', 'dt_data', 'repeat-pool/dt-offline/%s/P=%s/unit=%s' % (g[1], g[3] or '-', g[4] or '-'), f=g, N=5, mode='offline'))
+    for g in pool.PAST:
+        out.append(ob('C11', 'dt_data', 'data-pool/dt-online/%s/P=%s/unit=%s' % (g[1], g[3] or '-', g[4] or '-'), f=g, N=4, mode='online'))
     dense_un = ['not', 'abs', 'once', 'historically', 'eventually', 'always']
     dense_bin = ['and', 'or', 'implies', 'sub', 'geq', 'eq', 'since', 'until']
     dfs = [(k, X) for k in dense_un] + [(k, X, a, b) for k in ('once_t', 'historically_t', 'eventually_t', 'always_t') for a, b in [(0, 1), (1, 2)]]
